@@ -39,6 +39,7 @@ THEOREMS = [
     "O2P.Gate.post_process_sound",
     "O2P.Gate.post_process_admits",
     "O2P.Gate.post_process_checked",
+    "O2P.Gate.children_order_irrelevant",
 ]
 
 
